@@ -7,7 +7,7 @@ from hypothesis import strategies as st
 
 from . import ir, x690
 
-BOUNDARY_TAGNUMS = [0, 1, 2, 3, 30, 31, 32, 127, 128, 129, 16383, 16384, 2 ** 32]
+BOUNDARY_TAGNUMS = [0, 1, 2, 3, 30, 31, 32, 127, 128, 129, 16383, 16384, 2 ** 21 - 1, 2 ** 21, 2 ** 32, 2 ** 64, 2 ** 140]
 CLASSES = ['C', 'C', 'C', 'A', 'P']
 
 NUMERIC = '0123456789 '
@@ -534,7 +534,8 @@ class HypChooser(object):
 
     def len_form(self, n, path=''):
         if self._pct(self.w['overlong']):
-            return self.draw(st.integers(0, 3)), True
+            # (up to 126 length octets are legal, X.690 8.1.3.5; lengths below 2^32 need at most four)
+            return self.draw(st.sampled_from([0, 1, 1, 2, 2, 3, 3, 4, 5, 6, 7, 8, 9, 16, 60, 121, 122])), True
         return 0, False
 
     def true_octet(self, path=''):
@@ -569,6 +570,11 @@ class HypChooser(object):
 
     def real10_form(self, path=''):
         return self.draw(st.integers(1, 4)) if self._pct(40) else 0
+
+    def real_bin_form(self, path=''):
+        if not self._pct(self.w.get('binform', 35)):
+            return None
+        return (self.draw(st.sampled_from([0, 0, 1, 2])), self.draw(st.sampled_from([0, 0, 1, 2, 3])), self.draw(st.sampled_from([0, 1, 2, 3, 3])))
 
     def permute(self, n, what, path=''):
         if n < 2 or not self._pct(self.w['permute']):
